@@ -17,6 +17,8 @@ Knob `allow_known`: also generate an or-pattern nested inside a NON-first altern
 (the open finding C15-nested-or-later-alt); off by default.
 """
 
+import re
+
 PRELUDE = '''import { Pair, Triple } from std.tuples;
 
 class P(val a: int, val b: int) {
@@ -57,27 +59,49 @@ class ScopeGen:
         self.depth = depth
         self.nfun = nfun
         self.n = 0
+        self.k = 0
+        self.alias = {}
         self.features = {}
 
     def feat(self, f):
         self.features[f] = self.features.get(f, 0) + 1
 
+    # Binders are emitted as tokens (\x01<id>\x02) and spelled afterwards, so that one generated program can be rendered
+    # twice: with the pool names (sibling scopes reuse names) and with every binder renamed apart (u<id>) - two programs
+    # that differ by a consistent renaming of local variables only.
+    def inuse(self, xs):
+        return {self.alias.get(x, x) for x in xs}
+
     def name(self, bound, avoid=()):
         """a name not bound in any enclosing scope (no shadowing), preferring the small pool so that
         sibling scopes reuse names"""
-        cands = [n for n in POOL if n not in bound and n not in avoid]
+        used = self.inuse(bound) | self.inuse(avoid)
+        cands = [n for n in POOL if n not in used]
         if cands and self.r.chance(9, 10):
-            return self.r.pick(cands[:8]) if self.r.chance(2, 3) else self.r.pick(cands)
-        self.n += 1
-        return 't%d' % self.n
+            nm = self.r.pick(cands[:8]) if self.r.chance(2, 3) else self.r.pick(cands)
+        else:
+            self.n += 1
+            nm = 't%d' % self.n
+        self.k += 1
+        tok = '\x01%d\x02' % self.k
+        self.alias[tok] = nm
+        return tok
 
     def fld(self, f, x):
         """`f as x`; the shorthand `f` when x is f (`f as f` is legal but rename rewrites it: finding
         C15-rename-rewrites-as-same-name, only generated with allow_as_same)"""
-        if x == f and not self.allow_as_same:
+        if self.alias.get(x, x) == f and not self.allow_as_same:
             self.feat('struct-shorthand')
-            return f
+            return x.replace('\x02', '\x03') if x in self.alias else f      # \x03: spelled `f` / `f as u<id>`
         return '%s as %s' % (f, x)
+
+    def render(self, text, apart=False):
+        def sub(m):
+            tok = '\x01%s\x02' % m.group(1)
+            if not apart:
+                return self.alias[tok]
+            return ('%s as u%s' % (self.alias[tok], m.group(1))) if m.group(2) == '\x03' else 'u' + m.group(1)
+        return re.sub('\x01(\\d+)([\x02\x03])', sub, text)
 
     def names(self, bound, k):
         out = []
@@ -173,10 +197,10 @@ class ScopeGen:
             self.feat('struct-pattern')
             e = 'P.init(%s, %s)' % (self.gi(bound, ints, depth - 2), self.gi(bound, ints, depth - 2))
             form = r.below(5)
-            if form == 0 and 'a' not in bound and 'b' not in bound:
+            if form == 0 and 'a' not in self.inuse(bound) and 'b' not in self.inuse(bound):
                 self.feat('struct-shorthand')
                 pat, new = '{ a, b }', ['a', 'b']
-            elif form == 1 and 'b' not in bound:
+            elif form == 1 and 'b' not in self.inuse(bound):
                 self.feat('struct-shorthand')
                 x = self.name(bound, ['b'])
                 pat, new = '{ %s, b }' % self.fld('a', x), [x, 'b']
@@ -375,8 +399,10 @@ class ScopeGen:
 
 def gen_scope_program(rng, allow_known=True, depth=4, nfun=5, allow_as_same=False):
     g = ScopeGen(rng, allow_known=allow_known, depth=depth, nfun=nfun, allow_as_same=allow_as_same)
-    text = g.program()
-    return {'sources': {'Main': text}, 'entry': 'Main', 'features': dict(g.features)}
+    raw = g.program()
+    return {'sources': {'Main': g.render(raw)}, 'entry': 'Main', 'features': dict(g.features),
+            # the same program with every generated binder renamed apart (a consistent renaming of local variables)
+            'renamed_apart': {'Main': g.render(raw, apart=True)}}
 
 
 def gen_error_program(rng):
@@ -401,3 +427,35 @@ def gen_error_program(rng):
             toks = [t for t in re.finditer(r'\b[a-z][A-Za-z0-9]*\b', text) if t.start() > body_start and t.group(0) not in kw
                     and text[t.start() - 1] != '.' and not text[t.end():].lstrip().startswith('(')]
     return {'sources': {'Main': text}, 'entry': 'Main', 'features': {'mutated': 1}}
+
+
+# ----------------------------------------------------------------------------- scope violations (for C06)
+
+VIOLATIONS = [
+    ('iflet-binder-in-else', 'if let A(@x) = E.A(a) { @x } else { @x }'),
+    ('iflet-binder-in-else-if-chain', 'if let A(@x) = E.A(a) { @x } else if a > 1 { @x + 1 } else { 0 }'),
+    ('iflet-binder-in-later-else-if-condition', 'if let A(@x) = E.A(a) { @x } else if @x > 1 { 1 } else { 0 }'),
+    ('match-binder-in-other-arm', 'match E.A(a) { A(@x) -> @x, B(@y) -> @x, _ -> 0 }'),
+    ('match-binder-after-match', '(match E.A(a) { A(@x) | B(@x) -> @x, _ -> 0 }) + @x'),
+    ('let-after-its-block', '{ let @x = a; @x } + @x'),
+    ('let-of-then-branch-in-else', 'if a > 0 { let @x = a; @x } else { @x }'),
+    ('lambda-parameter-outside', '{ let @y = (@x: int) -> @x + 1; @y(a) + @x }'),
+    ('inner-lambda-parameter-in-outer-scope', '{ let @y = (@x: int) -> (@z: int) -> @x + @z; @y(1)(2) + @z }'),
+    ('struct-pattern-binder-after-block', '{ let { a as @x, b as _ } = P.init(a, 1); @x } + @x'),
+    ('tuple-pattern-binder-after-block', '{ let (@x, _) = (a, 1); @x } + @x'),
+    ('use-before-definition', '{ let @y = @x + 1; let @x = a; @y }'),
+    ('nested-pattern-binder-in-sibling-arm', 'match W.X(E.A(a)) { X(A(@x)) -> @x, Y(B(@y)) -> @x + @y, _ -> 0 }'),
+    ('or-pattern-binder-of-first-arm-in-second', 'match E.C(a, 1) { C(@x, _) | A(@x) -> @x, B(_) -> @x, D -> 0 }'),
+]
+
+
+def scope_violation_programs(rng):
+    """One small module per violation kind: a function whose body uses a binder outside the region where it is in scope.
+    Every one must be rejected with an error in Main (the name does not resolve there)."""
+    out = []
+    for kind, tpl in VIOLATIONS:
+        x, y, z = rng.shuffle([n for n in POOL if n != 'a'])[:3]
+        body = tpl.replace('@x', x).replace('@y', y).replace('@z', z)
+        text = PRELUDE + '\nclass Main {\n  function sv(a: int): int = %s\n  function main(): unit = Process.println(Str.fromInt(Main.sv(3)))\n}\n' % body
+        out.append((kind, {'sources': {'Main': text}, 'entry': 'Main', 'mutated': 'Main'}))
+    return out
